@@ -389,15 +389,32 @@ def bfs_shard(cfg, monitor_classes, alphabet, depth0, depth, part, nparts, multi
     return ex
 
 
-def cooperate(w, duration, hold=90, asn=None, caps='default', watch=None):
+def cooperate(w, duration, hold=90, asn=None, caps='default', watch=None, close_lag=20.0):
     """Drive the world with a cooperative peer for `duration` virtual seconds: accepts TCP at once,
     answers the agent's OPEN with a valid OPEN, its KEEPALIVE with a KEEPALIVE, then sends KEEPALIVE
-    every H/3 (H = min(agent's offer, hold)).  Returns dict(first_up, down_after_up, opens, connects)."""
+    every H/3 (H = min(agent's offer, hold)).  Returns dict(first_up, down_after_up, opens, connects).
+    In deferred-close mode a close the agent started completes late but eventually: right after the next
+    connection was accepted (the agent's new OPEN is out), or `close_lag` seconds after it was started."""
     from . import wire as _wire
+
+    def late_closes(force):
+        done = False
+        while reactor.defer_io and reactor._io_pending and (
+                force or any(w.now() - (x[1].t_lose if x[1].t_lose is not None else w.now()) >= close_lag for x in reactor._io_pending)):
+            idx = 0
+            if not force:
+                idx = [i for i, x in enumerate(reactor._io_pending)
+                       if w.now() - (x[1].t_lose if x[1].t_lose is not None else w.now()) >= close_lag][0]
+            reactor.sim_complete_close(idx)
+            w.settle()
+            res['late_closes'] += 1
+            done = True
+        return done
+
     t_start = w.now()
     end = t_start + duration
     ps = {}
-    res = dict(first_up=None, down_after_up=None, opens=[], connects=0, sessions=0, t_start=t_start)
+    res = dict(first_up=None, down_after_up=None, opens=[], connects=0, sessions=0, t_start=t_start, late_closes=0)
     asn = w.remote_as if asn is None else asn
     guard = 0
     while True:
@@ -411,6 +428,9 @@ def cooperate(w, duration, hold=90, asn=None, caps='default', watch=None):
                 c.sim_accept()
                 res['connects'] += 1
                 w.settle()
+                late_closes(True)
+                progressed = True
+            if late_closes(False):
                 progressed = True
             for t in w.live():
                 if id(t) not in ps:
@@ -460,6 +480,10 @@ def cooperate(w, duration, hold=90, asn=None, caps='default', watch=None):
             st = ps.get(id(t))
             if st and st['next_ka'] is not None:
                 cands.append(st['next_ka'])
+        if reactor.defer_io:
+            for x in reactor._io_pending:
+                if x[1].t_lose is not None:
+                    cands.append(x[1].t_lose + close_lag)
         nxt = max(min(cands), w.now())
         if nxt > w.now():
             w.advance(nxt - w.now())
